@@ -343,10 +343,13 @@ func (w *c02World) boot() error {
 }
 
 // settle waits until every checkpoint write issued so far has reached the store
+// (a gate on the writer's own queue, not a wait of fixed length).  A writer that is still busy after 30 s is not
+// waited out silently: the case ends with "panic checkpoint_writer_not_idle", which no model variant produces.
 func (w *c02World) settle() {
-	for i := 0; i < 200000; i++ {
-		if w.comp.checkpointWriter().VerifC02Idle() {
-			return
+	deadline := time.Now().Add(30 * time.Second)
+	for !w.comp.checkpointWriter().VerifC02Idle() {
+		if time.Now().After(deadline) {
+			panic("checkpoint_writer_not_idle")
 		}
 		time.Sleep(20 * time.Microsecond)
 	}
